@@ -46,7 +46,20 @@ def execute(prop, scenario, tape):
     rfd, wfd = os.pipe()
     sys.stdout.flush()
     sys.stderr.flush()
-    pid = os.fork()
+    pid = None
+    for attempt in range(40):
+        try:
+            pid = os.fork()
+            break
+        except BlockingIOError:
+            # EAGAIN: the machine is out of process slots for a moment (many checks running side by side)
+            import time as _t
+
+            _t.sleep(0.05 * (attempt + 1))
+    if pid is None:
+        os.close(rfd)
+        os.close(wfd)
+        return {"harness_error": "os.fork failed repeatedly with EAGAIN"}
     if pid == 0:
         code = 0
         try:
